@@ -58,7 +58,7 @@ FAMILIES = {
     },
     "ft": {
         "fix_all": None,
-        "mc": {"module": "MCFT", "cfg": {"quick": "FT-mc-quick.cfg", "thorough": ["FT-mc-quick.cfg", "FT-mc-thorough.cfg"]}, "timeout": {"quick": 300, "thorough": 1800}},
+        "mc": {"module": "MCFT", "cfg": {"quick": "FT-mc-quick.cfg", "thorough": ["FT-mc-quick.cfg", "FT-mc-thorough-a.cfg", "FT-mc-thorough-b.cfg", "FT-mc-thorough-c.cfg"]}, "timeout": {"quick": 300, "thorough": 1800}},
         "sim": {"module": "SimFT", "cfg": "FT-sim.cfg",
                 "tiers": {"quick": {"num": 100, "depth": 30, "workers": 4}, "thorough": {"num": 3000, "depth": 40, "workers": 8, "timeout": 2400}}},
         "trace_module": "FTTrace", "trace_cfg": "FT-trace.cfg",
@@ -139,7 +139,7 @@ PROPS = {
         "assumptions": COMMON_ASSUME,
     },
     "C16": {
-        "family": "rns", "formulas": ["C16Step"], "nt": "C16",
+        "family": "rns", "formulas": ["C16Step", "C16_Listed"], "nt": "C16",
         "bug_variants": [("lapsed", ["PC16", "PC08"])],
         "rule": "non-trivial = a successful registration (new, renewal, or re-registration of a lapsed name); "
                 "distinct = distinct (pre-state, message, post-state) triples",
